@@ -724,6 +724,10 @@ func TestVerifNhsim(t *testing.T) {
 		}
 	case "pipe":
 		rec.keep = func(ev string) bool { return ev != "Enter" && ev != "Exit" && ev != "SMNew" }
+	case "import":
+		rec.keep = func(ev string) bool {
+			return ev != "Send" && ev != "Save" && ev != "Enter" && ev != "Exit" && ev != "Inv" && ev != "Res" && ev != "Leader" && ev != "Boot"
+		}
 	case "snap":
 		rec.keep = func(ev string) bool {
 			return ev != "Send" && ev != "Save" && ev != "Enter" && ev != "Exit" && ev != "Inv" && ev != "Res" && ev != "Leader"
@@ -754,6 +758,10 @@ func TestVerifNhsim(t *testing.T) {
 		}
 		if os.Getenv("VERIF_STORE") != "" {
 			p.store = os.Getenv("VERIF_STORE")
+		}
+		if mode == "import" {
+			nhScenarioImport(rec, tid, s, sms[(tid/2)%3], p.store)
+			continue
 		}
 		if mode == "snap" {
 			nhScenarioSnap(rec, tid, s, sms[tid%3], p.store, nhEnvInt("VERIF_ROUNDS", 8))
